@@ -59,6 +59,8 @@ type FS struct {
 	// FailAt makes the FailAt-th faultable call (1-based; open, write, sync,
 	// close, remove, rename) fail once with ErrInjected. 0 = no fault.
 	FailAt    int
+	// Blocked: paths at which no file can ever be opened or created (a directory sits there).
+	Blocked map[string]bool
 	faultable int
 	// ShortWrite makes an injected write failure write the first half of the data.
 	ShortWrite bool
@@ -146,6 +148,11 @@ func OpenFile(path string, flag int, perm FileMode) (*File, error) {
 		op := f.log(Op{Kind: "open", Path: path, Flags: flag, Err: ErrInjected.Error()}, false)
 		f.Failed = op
 		return nil, &fs.PathError{Op: "open", Path: path, Err: ErrInjected}
+	}
+	if f.Blocked[path] {
+		// a start state, not an injected fault: something else (a directory) sits at this path
+		f.log(Op{Kind: "open", Path: path, Flags: flag, Err: "is a directory"}, false)
+		return nil, &fs.PathError{Op: "open", Path: path, Err: errors.New("is a directory")}
 	}
 	ino, ok := f.files[path]
 	mut := false
